@@ -6,6 +6,7 @@ and, independently, inside Coq (`Corr.C02.file_ok` re-lays the records out and c
 cannot make a case pass.  The implementation is observed through `bnp.open(path, buffer_type=...).read()`
 (every dataclass field, one at a time, canonicalised) and cross-checked against the eager route.
 """
+import json
 import os
 import random
 import shutil
@@ -19,7 +20,10 @@ RULE = ('files generated from a per-format grammar (BED3/6/12, bedGraph, narrowP
         'spellings of ints and floats: explicit +, .5, 5., exponents) and genotype columns of mixed cell shapes, FASTQ, two-line and '
         'wrapped FASTA), 1..N records, field widths 0..W, LF/CRLF; every file is observed in a SESSION: lazy read, eager read, the '
         'same table looked at again, after replace() of a column by itself, and get_data() twice on one buffer — all must give the '
-        'same columns; non-trivial = at least two records and some column whose texts have unequal widths (or, for wrapped FASTA, '
+        'same columns; and ROW SUBSETS taken BEFORE the first parse (4 per case: boolean mask with a kept row followed by a dropped one, index list '
+        'with repeats / reorder / negative indices as list or array, slice with positive / negative step, chain of 2-3 of them; on the table '
+        'returned by read() or on the buffer of the whole file followed by get_data(); columns first looked at in declaration / reversed / '
+        'rotated / odd-first order) must give the selected rows of every column; non-trivial = at least two records and some column whose texts have unequal widths (or, for wrapped FASTA, '
         'a sequence spanning several lines)')
 EXHAUSTIVE = {'quick': False, 'thorough': False}
 TIE = ('translator+correspondence: translate/gen_c02.py regenerates 60 index/offset formulas (column count, buffer size, '
@@ -28,7 +32,8 @@ TIE = ('translator+correspondence: translate/gen_c02.py regenerates 60 index/off
        'header-line index, lines per entry, name offset; GFF3 / wig interior comments: probe after a line break, deleted end delimiter, sentinel, start offset, column count, CR adjustment applied) into Gen/C02.v; Bridge/C02.v proves '
        'them equal to the named helpers of Model/C02.v (theorems C02_source_tie, C02_fasta_source_tie, C02_ic_source_tie); and Model.C02.run is evaluated in Coq on the file '
        'bytes and compared with every parsed column')
-ASSUMPTIONS = ['sessions: the Coq model is a function of the file bytes; that repeated parses of one table / buffer agree with the first one is checked by the harness (observe/_session) and enters spec_ok through the observation flag, it is not a Coq theorem',
+ASSUMPTIONS = ['subsets: one row subset per case (the first) goes to Coq with the columns parsed from it and is compared there with Model.run_sel (model_ok); the other three are compared by the harness with the selected rows of the full observation and enter spec_ok through the observation flag. Theorems C02_typed_col_select / C02_int_col_select state that parsing a selection = selecting the parsed rows for the schema columns; for INFO keys and genotype matrices that equality is checked, not proved',
+               'sessions: the Coq model is a function of the file bytes; that repeated parses of one table / buffer agree with the first one is checked by the harness (observe/_session) and enters spec_ok through the observation flag, it is not a Coq theorem',
                'A-IO: the reader delivers the whole file (after the leading comment block) as one chunk; chunking is C01',
                'floats: the model computes the exact decimal value; observed doubles are compared within relative 2^-50 (bit-exactness is C18)',
                'vcf_header.py regular-expression parsing is not modelled: the INFO declarations (key, type, scalar/list) are case inputs',
@@ -513,6 +518,10 @@ def generate(tier, seed):
         cases.append(_mk(rng, 'bed12', rng.randint(1, 4), 4, trailing=True))
         cases.append(_mk(rng, 'vcf', rng.randint(2, 5), 4, p_dot=0.5, p_absent=0.1))
         cases.append(_mk(rng, rng.choice(INTERIOR), rng.randint(2, 5), 4, comment_tabs=True))
+    # every case also carries row subsets to be taken BEFORE the first parse (mask / index list / slice / chains; route; order
+    # in which the columns are first looked at) — see _subset_session
+    for k, c in enumerate(cases):
+        c['subsets'] = _mk_subsets(random.Random(seed * 1000003 + 31 * k + 5), len(c['recs']))
     return cases
 
 
@@ -558,26 +567,46 @@ def _canon(v):
     raise TypeError('cannot canonicalise %s %s' % (type(v).__name__, a.dtype))
 
 
-def _columns(data):
-    """[(name, kind, rows) | (name, 'err', exception class)] for every field; INFO dataclass expanded per key."""
+def _reorder(seq, order):
+    """order of FIRST ACCESS of the columns: 0 = as declared, -1 = reversed, k > 0 = rotated by k, 'odd' = odd positions first"""
+    seq = list(seq)
+    if not order or not seq:
+        return seq
+    if order == -1:
+        return seq[::-1]
+    if order == 'odd':
+        return seq[1::2] + seq[0::2]
+    k = order % len(seq)
+    return seq[k:] + seq[:k]
+
+
+def _columns(data, order=0):
+    """[(name, kind, rows) | (name, 'err', exception class)] for every field; INFO dataclass expanded per key.
+    The columns are ACCESSED (= parsed, on a lazily read table) in the given order and reported in declaration order."""
     import dataclasses
-    out = []
-    for f in dataclasses.fields(data):
+    got = {}
+    fields = list(dataclasses.fields(data))
+    for f in _reorder(fields, order):
+        out = []
         try:
             v = getattr(data, f.name)
             if dataclasses.is_dataclass(v) and not hasattr(v, 'raw') and f.name == 'info':
-                for g in dataclasses.fields(v):
+                sub = {}
+                gs = list(dataclasses.fields(v))
+                for g in _reorder(gs, order):
                     try:
                         k, rows = _canon(getattr(v, g.name))
-                        out.append(['info.' + g.name, k, rows])
+                        sub[g.name] = ['info.' + g.name, k, rows]
                     except Exception as e:
-                        out.append(['info.' + g.name, 'err', type(e).__name__])
+                        sub[g.name] = ['info.' + g.name, 'err', type(e).__name__]
+                got[f.name] = [sub[g.name] for g in gs]
                 continue
             k, rows = _canon(v)
             out.append([f.name, k, rows])
         except Exception as e:
             out.append([f.name, 'err', type(e).__name__])
-    return out
+        got[f.name] = out
+    return [c for f in fields for c in got[f.name]]
 
 
 def _buffer_type(fmt):
@@ -615,6 +644,108 @@ def _session(bnp, path, bt, table, first):
         return 'error:%s:%s' % (type(e).__name__, str(e)[:80])
 
 
+# ----------------------------------------------------------------------------- row subsets taken BEFORE the first parse
+def _np_selector(sel):
+    import numpy as np
+    if 'mask' in sel:
+        return np.array(sel['mask'], dtype=bool)
+    if 'idx' in sel:
+        return np.array(sel['idx'], dtype=int) if sel.get('array') else list(sel['idx'])
+    a, b, c = sel['slice']
+    return slice(a, b, c)
+
+
+def _selected_rows(n, chain):
+    """the record numbers a chain of selectors keeps, by NumPy's own indexing rules on range(n)"""
+    import numpy as np
+    rows = np.arange(n)
+    for sel in chain:
+        rows = rows[_np_selector(sel)]
+    return [int(i) for i in rows]
+
+
+def _one_selector(rng, m, kind):
+    """a selector on m >= 1 rows that keeps at least one row"""
+    if kind == 'mask':
+        mask = [rng.random() < 0.5 for _ in range(m)]
+        if m >= 2 and rng.random() < 0.7:
+            k = rng.randrange(m - 1)            # a kept row directly followed by a dropped one
+            mask[k], mask[k + 1] = True, False
+        if not any(mask):
+            mask[rng.randrange(m)] = True
+        return {'mask': [int(b) for b in mask]}
+    if kind == 'idx':
+        k = rng.randint(1, m + 1)
+        idx = [rng.randrange(-m, m) if rng.random() < 0.2 else rng.randrange(m) for _ in range(k)]   # repeats, any order, negatives
+        if rng.random() < 0.3:
+            idx = sorted(set(i % m for i in idx))                                                     # increasing, distinct
+        elif rng.random() < 0.3:
+            idx = sorted(set(i % m for i in idx), reverse=True)                                       # reordered
+        return {'idx': idx, 'array': rng.random() < 0.5}
+    while True:
+        a = rng.choice([None, None, 0, 1, m - 1, rng.randrange(m), -1, -2])
+        b = rng.choice([None, None, m, m - 1, rng.randrange(m + 1), -1])
+        c = rng.choice([None, 1, 2, 2, 3, -1, -2])
+        if len(range(m)[slice(a, b, c)]) >= 1:
+            return {'slice': [a, b, c]}
+
+
+def _mk_subsets(rng, n):
+    """row subsets of a table of n records: mask, index list, slice, and chains of them; which route (table returned by
+    read() / the buffer of the whole file) and in which order the columns are looked at first"""
+    out = []
+    kinds = ['mask', 'idx', 'slice']
+    rng.shuffle(kinds)
+    for j, kind in enumerate(kinds + ['chain']):
+        chain, m = [], n
+        for step in range(1 if kind != 'chain' else rng.randint(2, 3)):
+            sel = _one_selector(rng, m, kind if kind != 'chain' else rng.choice(['mask', 'idx', 'slice']))
+            chain.append(sel)
+            m = len(_selected_rows(n, chain))
+        out.append({'chain': chain, 'route': rng.choice(['table', 'table', 'buffer']),
+                    'order': rng.choice([0, -1, -1, 1, 2, 5, 'odd'])})
+    return out
+
+
+def _default_subsets(n):
+    return _mk_subsets(random.Random(7919 * n + 13), n)
+
+
+def _subset_session(bnp, path, bt, case, first, n):
+    """A lazily read table (or the buffer of the whole file) is SUBSET before any of its columns has been parsed; every
+    column of the subset — looked at in a varied order — must be the rows of the full table's column."""
+    shipped = None
+    for k, sub in enumerate(case.get('subsets') or _default_subsets(n)):
+        what = 'subset %s' % json.dumps(sub, sort_keys=True)
+        try:
+            rows = _selected_rows(n, sub['chain'])
+            want = [[name, kind, [col[i] for i in rows]] for name, kind, col in first]
+            route = sub['route']
+            f = bnp.open(path, buffer_type=bt)
+            if route == 'buffer' and case['fmt'] != 'fasta':      # MultiLineFastaBuffer has no row access (SKIP_LAZY)
+                obj = f._reader.read()
+            else:
+                route = 'table'
+                obj = f.read()
+            f.close()
+            for one in sub['chain']:
+                obj = obj[_np_selector(one)]
+            data = obj.get_data() if route == 'buffer' else obj
+            if len(data) != len(rows):
+                return '%s: %d entries instead of %d' % (what, len(data), len(rows)), shipped
+            got = _columns(data, sub['order'])
+            if k == 0:
+                shipped = dict(rows=rows, cols=got)      # goes to Coq: compared there with Model.run_sel on the same index list
+            if got != want:
+                bad = [g[0] for g, w in zip(got, want) if g != w]
+                return '%s (%s): column(s) %s differ from the rows %s of the full table' % (what, route, ','.join(bad), rows), shipped
+            if _columns(data) != want:
+                return '%s (%s): columns changed when looked at again' % (what, route), shipped
+        except Exception as e:
+            return '%s: error:%s:%s' % (what, type(e).__name__, str(e)[:80]), shipped
+    return 'same', shipped
+
+
 def observe(case):
     import bionumpy as bnp
     d = tempfile.mkdtemp(prefix='c02_')
@@ -644,6 +775,10 @@ def observe(case):
         # gives the same columns and changes nothing that was handed out before
         if not any(c[1] == 'err' for c in out['cols']):
             out['session'] = _session(bnp, path, bt, data, out['cols'])
+            # subsets: a row selection taken BEFORE the first parse parses to the selected rows
+            out['subsets'], sel = _subset_session(bnp, path, bt, case, out['cols'], out['n'])
+            if sel is not None:
+                out['sel'] = sel
         return out
     finally:
         shutil.rmtree(d, ignore_errors=True)
@@ -672,7 +807,7 @@ def _eager_ok(o):
     """The eager route must deliver the same columns; it fails as a whole exactly when some lazily parsed column fails."""
     any_err = any(c[1] == 'err' for c in o['cols'])
     e = o.get('eager', 'same')
-    if o.get('session', 'same') != 'same':
+    if o.get('session', 'same') != 'same' or o.get('subsets', 'same') != 'same':
         return False
     if e == 'same':
         return True
@@ -701,9 +836,13 @@ def to_coq(case, o):
             else:
                 cols.append('Col %s' % clist([_cell(kind, v) for v in rows], 'cell'))
         obs = 'Obs %s %s %s' % (cz(o['n']), clist(cols, 'colres'), cbool(_eager_ok(o)))
+    sel = 'None'
+    if 'sel' in o:
+        scols = ['ColErr' if kind == 'err' else 'Col %s' % clist([_cell(kind, v) for v in rows], 'cell') for name, kind, rows in o['sel']['cols']]
+        sel = '(Some (%s, Obs %s %s true))' % (zl(o['sel']['rows']), cz(len(o['sel']['rows'])), clist(scols, 'colres'))
     return ('{| k_fmt := %s; k_crlf := %s; k_final := %s; k_header := %s; k_recs := %s; k_comments := %s; k_decl := %s; k_width := %s; '
-            'k_file := %s; k_obs := %s |}' % (COQ_TAG[case['fmt']], cbool(case['crlf']), cbool(case['final_newline']), hdr, recs, com, decl, cz(case.get('width', 0)),
-                                              hx(fb), obs))
+            'k_file := %s; k_obs := %s; k_sel := %s |}' % (COQ_TAG[case['fmt']], cbool(case['crlf']), cbool(case['final_newline']), hdr, recs, com, decl, cz(case.get('width', 0)),
+                                              hx(fb), obs, sel))
 
 
 # ----------------------------------------------------------------------------- evidence helpers
